@@ -82,9 +82,13 @@ META = {
              "(namespace_id,type,name) stays unique; an edit is applied only to a row of the request's own type (edit_preserves_type) and a request of a foreign type is rejected "
              "and changes nothing (foreign_type_edit_rejected); namespaces, FULL STRENGTH: whatever one SaveEntity does every namespace row keeps id, type and "
              "name (namespace_keeps_name) and so along ANY history, with no condition on the requests (namespace_not_renamable); no entity ever changes its "
-             "type (entity_type_never_changes); a namespaced metric/group gets the id of an "
+             "type (entity_type_never_changes); the stored namespace_id is a function of (type, name) in every reachable state (NsInv: resolveEntity recomputes "
+             "it from the name on every create and edit, namespace rows keep their names and have namespace_id 0), hence names are unique per type whatever the "
+             "namespace_id, renames across namespaces included (name_unique_per_type, rename_onto_used_name_refused); a namespaced metric/group gets the id of an "
              "existing namespace row and that reference never dangles; the journal is strictly ascending by version, lists every entity at most "
-             "once at its current version, is a prefix of the full list and paging from the last delivered version continues exactly where it stopped. Long-poll (rpc_handler.go): every reply of broadcastJournal is non-empty, strictly ascending, "
+             "once at its current version, is a prefix of the full list and paging from the last delivered version continues exactly where it stopped; with ANY operations running between the pages a client that pages by sinceVersion holds every "
+             "current row at or below its since (paging_never_misses), so once it catches up it holds the latest version of every entity "
+             "(paging_complete_when_caught_up). Long-poll (rpc_handler.go): every reply of broadcastJournal is non-empty, strictly ascending, "
              "only versions newer than that client's From, contains every current row between its From and the returned CurrentVersion; a "
              "request is parked only when nothing newer exists; consecutive replies of a client that continues from CurrentVersion never repeat a version."),
     "note": ("Trusted: Lean kernel, SQLite, the engine's serialisation of Do callbacks, model<->code correspondence on generated histories "
@@ -97,6 +101,6 @@ META = {
              "The model now has the type test (Variant.fixed); Variant.untyped / Variant.old reproduce the earlier trees with `decide` witnesses of both renames. "
              "corpus/C15/type-mismatch-namespace-rename.ops stays as a regression (the request is now answered invalid-version). The oracle has no tolerance "
              "left: any rename of a namespace row (namespace-renamed), any accepted edit of a foreign type (edit-foreign-type-accepted) and any change of a stored "
-             "or reported type (entity-type-changed) is a violation. Still not proved: uniqueness of (type, name) irrespective of namespace_id."),
+             "or reported type (entity-type-changed) is a violation."),
     "design_ref": "DESIGN.md §6 C15",
 }
